@@ -1,17 +1,16 @@
 //go:build verif
 
-package handshake
+package weshnet
 
-// Driver for specs/Handshake.tla (C06).  A concrete Dolev-Yao intruder speaks the real wire
-// format (uvarint-delimited protobuf frames, the nacl boxes of request.go / response.go)
-// against the real RequestUsingReaderWriter / ResponseUsingReaderWriter, one goroutine per
-// honest session, over in-memory connections whose blocking state the driver can observe
-// (no timeouts anywhere).  Every script TLC generated is executed once per concretisation
-// (degenerate X25519 encoding, foreign key type, frame corruption) and, per run, the driver
-// records what each honest endpoint returned, mapped back to the abstract names.
-//
-// The intruder only uses: the frames it saw, the public account keys, and the private keys of
-// its own account E, its foreign-typed identity F and its ephemeral key "ei".
+// Second driver for C06 (specs/HandshakeContact.tla): the responder side is not the bare
+// handshake but contactRequestsManager.handleIncomingRequest of a real protocol service (mocked
+// IPFS, in-memory datastore), fed through a fake libp2p stream whose blocking state the driver
+// observes.  The concrete intruder is the one of harness/internal/handshake (this file is derived
+// from it: same wire format, same term-to-bytes mapping); honest requesters are real
+// handshake.RequestUsingReaderWriter calls with fresh account keys.  After a handshake the
+// intruder sends the contact announcement the script names.  Observed per run: what every
+// endpoint returned and for which contact keys the account group now holds an incoming request
+// (= an AccountContactRequestIncomingReceived event was appended).
 
 import (
 	"bufio"
@@ -32,25 +31,52 @@ import (
 	"testing"
 
 	p2pcrypto "github.com/libp2p/go-libp2p/core/crypto"
+	"github.com/libp2p/go-libp2p/core/network"
+	mocknet "github.com/libp2p/go-libp2p/p2p/net/mock"
 	"go.uber.org/zap"
 	"golang.org/x/crypto/curve25519"
 	"golang.org/x/crypto/nacl/box"
 	"google.golang.org/protobuf/proto"
 
+	"berty.tech/weshnet/v2/internal/handshake"
 	"berty.tech/weshnet/v2/pkg/cryptoutil"
 	"berty.tech/weshnet/v2/pkg/errcode"
+	"berty.tech/weshnet/v2/pkg/protocoltypes"
 	"berty.tech/weshnet/v2/pkg/protoio"
+	"berty.tech/weshnet/v2/pkg/tinder"
 )
+
+// the one real service whose handleIncomingRequest plays every responder (account B)
+type vfcWorld struct {
+	svc *service
+	mgr *contactRequestsManager
+	ctx context.Context
+}
+
+var (
+	vfcW        *vfcWorld
+	vfcAppMu    sync.Mutex
+	vfcAppended int
+)
+
+// vfcStream is what handleIncomingRequest gets as its libp2p stream: it only reads and writes
+type vfcStream struct {
+	network.Stream
+	c *vfcConn
+}
+
+func (s vfcStream) Read(p []byte) (int, error)  { return s.c.Read(p) }
+func (s vfcStream) Write(p []byte) (int, error) { return s.c.Write(p) }
 
 // ---------------------------------------------------------------------------------- scripts
 
-type vfhSessCfg struct {
+type vfcSessCfg struct {
 	Role   string `json:"role"`
 	Owner  string `json:"owner"`
 	Target string `json:"target"`
 }
 
-type vfhStep struct {
+type vfcStep struct {
 	Act  string `json:"act"`
 	S    int    `json:"s"`
 	X    string `json:"x"`
@@ -61,9 +87,9 @@ type vfhStep struct {
 	C    bool   `json:"c"`
 }
 
-type vfhCfg struct {
-	Sess  []vfhSessCfg `json:"sess"`
-	Low   []int        `json:"low"`   // indices into vfhLowPoints to use for the abstract "low"
+type vfcCfg struct {
+	Sess  []vfcSessCfg `json:"sess"`
+	Low   []int        `json:"low"`   // indices into vfcLowPoints to use for the abstract "low"
 	FT    []string     `json:"ft"`    // key types to use for the abstract foreign identity F
 	Mut   string       `json:"mut"`   // corruption of a c=TRUE step: "all" | "sample:<k>" | "one:<idx>"
 	Steps bool         `json:"steps"` // also record one event per step (first variant only)
@@ -71,13 +97,13 @@ type vfhCfg struct {
 	StepsAll bool `json:"stepsall"`
 }
 
-type vfhScript struct {
+type vfcScript struct {
 	ID    int       `json:"id"`
-	Cfg   vfhCfg    `json:"cfg"`
-	Steps []vfhStep `json:"steps"`
+	Cfg   vfcCfg    `json:"cfg"`
+	Steps []vfcStep `json:"steps"`
 }
 
-func vfhLoadScripts(t testing.TB) []vfhScript {
+func vfcLoadScripts(t testing.TB) []vfcScript {
 	p := os.Getenv("VERIF_SCRIPTS")
 	if p == "" {
 		t.Skip("VERIF_SCRIPTS not set")
@@ -87,14 +113,14 @@ func vfhLoadScripts(t testing.TB) []vfhScript {
 		t.Fatalf("VERIF-INFRA cannot open scripts: %v", err)
 	}
 	defer f.Close()
-	var out []vfhScript
+	var out []vfcScript
 	sc := bufio.NewScanner(f)
 	sc.Buffer(make([]byte, 1<<20), 1<<28)
 	for sc.Scan() {
 		if len(sc.Bytes()) == 0 {
 			continue
 		}
-		var s vfhScript
+		var s vfcScript
 		if err := json.Unmarshal(sc.Bytes(), &s); err != nil {
 			t.Fatalf("VERIF-INFRA bad script line: %v", err)
 		}
@@ -106,12 +132,12 @@ func vfhLoadScripts(t testing.TB) []vfhScript {
 // --------------------------------------------------------------------- degenerate encodings
 
 var (
-	vfhP, _   = new(big.Int).SetString("57896044618658097711785492504343953926634992332820282019728792003956564819949", 10)
-	vfhO8a, _ = new(big.Int).SetString("325606250916557431795983626356110631294008115727848805560023387167927233504", 10)
-	vfhO8b, _ = new(big.Int).SetString("39382357235489614581723060781553021112529911719440698176882885853963445705823", 10)
+	vfcP, _   = new(big.Int).SetString("57896044618658097711785492504343953926634992332820282019728792003956564819949", 10)
+	vfcO8a, _ = new(big.Int).SetString("325606250916557431795983626356110631294008115727848805560023387167927233504", 10)
+	vfcO8b, _ = new(big.Int).SetString("39382357235489614581723060781553021112529911719440698176882885853963445705823", 10)
 )
 
-func vfhLE(v *big.Int) [32]byte {
+func vfcLE(v *big.Int) [32]byte {
 	var out [32]byte
 	b := v.Bytes() // big endian
 	if len(b) > 32 {
@@ -123,7 +149,7 @@ func vfhLE(v *big.Int) [32]byte {
 	return out
 }
 
-type vfhLow struct {
+type vfcLow struct {
 	name string
 	enc  [32]byte
 	zero bool // X25519(k, enc) is the all-zero value in the implementation under test's library
@@ -131,27 +157,27 @@ type vfhLow struct {
 
 // the twelve values of https://cr.yp.to/ecdh.html#validate (as 256-bit little-endian strings)
 // followed by the seven canonical small-order values with bit 255 set
-var vfhLowPoints = func() []vfhLow {
+var vfcLowPoints = func() []vfcLow {
 	add := func(a, b *big.Int) *big.Int { return new(big.Int).Add(a, b) }
 	one := big.NewInt(1)
-	p2 := add(vfhP, vfhP)
+	p2 := add(vfcP, vfcP)
 	vals := []struct {
 		n string
 		v *big.Int
 	}{
-		{"0", big.NewInt(0)}, {"1", one}, {"o8a", vfhO8a}, {"o8b", vfhO8b},
-		{"p-1", new(big.Int).Sub(vfhP, one)}, {"p", vfhP}, {"p+1", add(vfhP, one)},
-		{"p+o8a", add(vfhP, vfhO8a)}, {"p+o8b", add(vfhP, vfhO8b)},
+		{"0", big.NewInt(0)}, {"1", one}, {"o8a", vfcO8a}, {"o8b", vfcO8b},
+		{"p-1", new(big.Int).Sub(vfcP, one)}, {"p", vfcP}, {"p+1", add(vfcP, one)},
+		{"p+o8a", add(vfcP, vfcO8a)}, {"p+o8b", add(vfcP, vfcO8b)},
 		{"2p-1", new(big.Int).Sub(p2, one)}, {"2p", p2}, {"2p+1", add(p2, one)},
 	}
-	var out []vfhLow
+	var out []vfcLow
 	for _, v := range vals {
-		out = append(out, vfhLow{name: v.n, enc: vfhLE(v.v)})
+		out = append(out, vfcLow{name: v.n, enc: vfcLE(v.v)})
 	}
 	for _, v := range vals[:7] {
-		e := vfhLE(v.v)
+		e := vfcLE(v.v)
 		e[31] |= 0x80
-		out = append(out, vfhLow{name: v.n + "|msb", enc: e})
+		out = append(out, vfcLow{name: v.n + "|msb", enc: e})
 	}
 	sc := [32]byte{7: 0x55, 20: 0x17}
 	sc[0] &= 248
@@ -166,7 +192,7 @@ var vfhLowPoints = func() []vfhLow {
 }()
 
 // canonical form of an X25519 u-coordinate as the function sees it: bit 255 masked, reduced mod p
-func vfhCanon(b []byte) string {
+func vfcCanon(b []byte) string {
 	if len(b) != 32 {
 		return "len" + strconv.Itoa(len(b)) + ":" + hex.EncodeToString(b)
 	}
@@ -176,11 +202,11 @@ func vfhCanon(b []byte) string {
 	}
 	be[0] &= 0x7f
 	v := new(big.Int).SetBytes(be)
-	v.Mod(v, vfhP)
+	v.Mod(v, vfcP)
 	return v.Text(16)
 }
 
-func vfhDegenerate(b []byte) bool {
+func vfcDegenerate(b []byte) bool {
 	if len(b) != 32 {
 		return false
 	}
@@ -195,9 +221,9 @@ func vfhDegenerate(b []byte) bool {
 
 // ------------------------------------------------------------------------------ connections
 
-// vfhConn is the byte stream between the driver (network) and one honest session.  The
+// vfcConn is the byte stream between the driver (network) and one honest session.  The
 // driver can tell when the session is blocked reading on an empty stream.
-type vfhConn struct {
+type vfcConn struct {
 	mu       sync.Mutex
 	cond     *sync.Cond
 	in       []byte
@@ -210,13 +236,13 @@ type vfhConn struct {
 	panicked any
 }
 
-func vfhNewConn() *vfhConn {
-	c := &vfhConn{}
+func vfcNewConn() *vfcConn {
+	c := &vfcConn{}
 	c.cond = sync.NewCond(&c.mu)
 	return c
 }
 
-func (c *vfhConn) Read(p []byte) (int, error) {
+func (c *vfcConn) Read(p []byte) (int, error) {
 	c.mu.Lock()
 	defer c.mu.Unlock()
 	for len(c.in) == 0 && !c.inClosed {
@@ -233,21 +259,21 @@ func (c *vfhConn) Read(p []byte) (int, error) {
 	return n, nil
 }
 
-func (c *vfhConn) Write(p []byte) (int, error) {
+func (c *vfcConn) Write(p []byte) (int, error) {
 	c.mu.Lock()
 	defer c.mu.Unlock()
 	c.out = append(c.out, p...)
 	return len(p), nil
 }
 
-func (c *vfhConn) deliver(b []byte) {
+func (c *vfcConn) deliver(b []byte) {
 	c.mu.Lock()
 	c.in = append(c.in, b...)
 	c.cond.Broadcast()
 	c.mu.Unlock()
 }
 
-func (c *vfhConn) closeIn() {
+func (c *vfcConn) closeIn() {
 	c.mu.Lock()
 	c.inClosed = true
 	c.cond.Broadcast()
@@ -255,7 +281,7 @@ func (c *vfhConn) closeIn() {
 }
 
 // settle blocks until the session has returned or is blocked reading with nothing left to read
-func (c *vfhConn) settle() {
+func (c *vfcConn) settle() {
 	c.mu.Lock()
 	for !(c.done || (c.waiting && len(c.in) == 0 && !c.inClosed)) {
 		c.cond.Wait()
@@ -263,7 +289,7 @@ func (c *vfhConn) settle() {
 	c.mu.Unlock()
 }
 
-func (c *vfhConn) finish(k p2pcrypto.PubKey, err error, pn any) {
+func (c *vfcConn) finish(k p2pcrypto.PubKey, err error, pn any) {
 	c.mu.Lock()
 	c.done, c.key, c.err, c.panicked = true, k, err, pn
 	c.cond.Broadcast()
@@ -271,7 +297,7 @@ func (c *vfhConn) finish(k p2pcrypto.PubKey, err error, pn any) {
 }
 
 // takeFrames removes the complete frames the session wrote so far (raw bytes, prefix included)
-func (c *vfhConn) takeFrames() [][]byte {
+func (c *vfcConn) takeFrames() [][]byte {
 	c.mu.Lock()
 	defer c.mu.Unlock()
 	var frames [][]byte
@@ -288,86 +314,89 @@ func (c *vfhConn) takeFrames() [][]byte {
 
 // --------------------------------------------------------------------------------- the world
 
-type vfhKeys struct {
+type vfcKeys struct {
 	priv map[string]p2pcrypto.PrivKey // A, B, E, W (+ F per type)
 	pub  map[string]p2pcrypto.PubKey
 }
 
 var (
-	vfhForeignOnce sync.Once
-	vfhForeign     map[string]p2pcrypto.PrivKey
+	vfcForeignOnce sync.Once
+	vfcForeign     map[string]p2pcrypto.PrivKey
 )
 
-func vfhForeignKeys() map[string]p2pcrypto.PrivKey {
-	vfhForeignOnce.Do(func() {
+func vfcForeignKeys() map[string]p2pcrypto.PrivKey {
+	vfcForeignOnce.Do(func() {
 		r := vfRand(424242)
-		vfhForeign = map[string]p2pcrypto.PrivKey{}
+		vfcForeign = map[string]p2pcrypto.PrivKey{}
 		k, _, err := p2pcrypto.GenerateRSAKeyPair(2048, r)
 		if err != nil {
 			vfInfra("rsa: %v", err)
 		}
-		vfhForeign["rsa"] = k
+		vfcForeign["rsa"] = k
 		k, _, err = p2pcrypto.GenerateSecp256k1Key(r)
 		if err != nil {
 			vfInfra("secp256k1: %v", err)
 		}
-		vfhForeign["secp256k1"] = k
+		vfcForeign["secp256k1"] = k
 		k, _, err = p2pcrypto.GenerateECDSAKeyPair(r)
 		if err != nil {
 			vfInfra("ecdsa: %v", err)
 		}
-		vfhForeign["ecdsa"] = k
+		vfcForeign["ecdsa"] = k
 	})
-	return vfhForeign
+	return vfcForeign
 }
 
-type vfhSession struct {
+type vfcSession struct {
 	i       int
-	cfg     vfhSessCfg
-	conn    *vfhConn
+	cfg     vfcSessCfg
+	conn    *vfcConn
 	frames  [][]byte // frames written by the session, in order
 	in      []string // provenance of the frames delivered to it
 	ownEph  []byte
 	peerEph []byte // ephemeral bytes delivered to it (as the code reads them), nil if none
+	claimed string // account named in the last step-3 box delivered to it
 	closed  bool
 }
 
-type vfhRun struct {
-	sc     *vfhScript
+type vfcRun struct {
+	sc     *vfcScript
 	lowIdx int
 	ft     string
 	mutIdx int // -1: none
 	rnd    *rand.Rand
-	keys   vfhKeys
+	keys   vfcKeys
 	// intruder-private material
 	eiPub, eiPriv *[32]byte
-	sess          []*vfhSession
+	sess          []*vfcSession
 	nmut          int
 	mutDesc       string
 	obs           []string
 }
 
-func vfhMust(err error, what string) {
+func vfcMust(err error, what string) {
 	if err != nil {
 		vfInfra("%s: %v", what, err)
 	}
 }
 
-func (r *vfhRun) start() {
-	r.keys = vfhKeys{priv: map[string]p2pcrypto.PrivKey{}, pub: map[string]p2pcrypto.PubKey{}}
-	for _, n := range []string{"A", "B", "E", "W"} {
+func (r *vfcRun) start() {
+	r.keys = vfcKeys{priv: map[string]p2pcrypto.PrivKey{}, pub: map[string]p2pcrypto.PubKey{}}
+	for _, n := range []string{"A", "E", "W"} {
 		k, pk, err := p2pcrypto.GenerateEd25519Key(r.rnd)
-		vfhMust(err, "keygen")
+		vfcMust(err, "keygen")
 		r.keys.priv[n], r.keys.pub[n] = k, pk
 	}
+	// B is the account of the real service: the driver never touches its private key
+	r.keys.pub["B"] = vfcW.mgr.accountPrivateKey.GetPublic()
 	if r.ft != "" {
 		if r.ft == "edsmall" {
-			// the Ed25519 identity point: a key without a private half (see vfhSign)
+			// the Ed25519 identity point: a key without a private half (see vfcSign)
 			pk, err := p2pcrypto.UnmarshalEd25519PublicKey(append([]byte{1}, make([]byte, 31)...))
-			vfhMust(err, "identity key")
+			vfcMust(err, "identity key")
 			r.keys.pub["F"] = pk
 		} else {
-			k := vfhForeignKeys()[r.ft]
+			k := vfcForeignKeys()[r.ft]
 			if k == nil {
 				vfInfra("unknown foreign key type %q", r.ft)
 			}
@@ -376,38 +405,44 @@ func (r *vfhRun) start() {
 	}
 	var err error
 	r.eiPub, r.eiPriv, err = box.GenerateKey(r.rnd)
-	vfhMust(err, "intruder ephemeral")
+	vfcMust(err, "intruder ephemeral")
 	for i, c := range r.sc.Cfg.Sess {
-		s := &vfhSession{i: i + 1, cfg: c}
+		s := &vfcSession{i: i + 1, cfg: c}
 		r.sess = append(r.sess, s)
 		if c.Role == "none" {
 			continue
 		}
-		s.conn = vfhNewConn()
-		own := r.keys.priv[c.Owner]
+		s.conn = vfcNewConn()
 		conn := s.conn
-		reader := protoio.NewDelimitedReader(conn, 2048)
-		writer := protoio.NewDelimitedWriter(conn)
 		if c.Role == "req" {
+			if c.Owner != "A" {
+				vfInfra("this driver only has honest requesters of account A")
+			}
+			own := r.keys.priv["A"]
 			target := r.keys.pub[c.Target]
+			reader := protoio.NewDelimitedReader(conn, 2048)
+			writer := protoio.NewDelimitedWriter(conn)
 			go func() {
 				defer func() {
 					if p := recover(); p != nil {
 						conn.finish(nil, fmt.Errorf("panic"), p)
 					}
 				}()
-				err := RequestUsingReaderWriter(context.Background(), zap.NewNop(), reader, writer, own, target)
+				err := handshake.RequestUsingReaderWriter(context.Background(), zap.NewNop(), reader, writer, own, target)
 				conn.finish(nil, err, nil)
 			}()
 		} else {
+			if c.Owner != "B" {
+				vfInfra("this driver only has the service account B as responder")
+			}
 			go func() {
 				defer func() {
 					if p := recover(); p != nil {
 						conn.finish(nil, fmt.Errorf("panic"), p)
 					}
 				}()
-				k, err := ResponseUsingReaderWriter(context.Background(), zap.NewNop(), reader, writer, own)
-				conn.finish(k, err, nil)
+				err := vfcW.mgr.handleIncomingRequest(vfcW.ctx, vfcStream{c: conn})
+				conn.finish(nil, err, nil)
 			}()
 		}
 	}
@@ -419,11 +454,11 @@ func (r *vfhRun) start() {
 }
 
 // collect moves the frames a session wrote into its record; the first one carries its ephemeral
-func (r *vfhRun) collect(s *vfhSession) int {
+func (r *vfcRun) collect(s *vfcSession) int {
 	fr := s.conn.takeFrames()
 	for _, f := range fr {
 		if len(s.frames) == 0 {
-			var h HelloPayload
+			var h handshake.HelloPayload
 			_, n := binary.Uvarint(f)
 			if err := proto.Unmarshal(f[n:], &h); err != nil || len(h.EphemeralPubKey) != 32 {
 				vfInfra("session %d: first frame is not a hello", s.i)
@@ -435,20 +470,20 @@ func (r *vfhRun) collect(s *vfhSession) int {
 	return len(fr)
 }
 
-func vfhFrame(m proto.Message) []byte {
+func vfcFrame(m proto.Message) []byte {
 	b, err := proto.Marshal(m)
-	vfhMust(err, "marshal")
+	vfcMust(err, "marshal")
 	return append(binary.AppendUvarint(nil, uint64(len(b))), b...)
 }
 
 // ---------------------------------------------------------------------------- the intruder
 
-func (r *vfhRun) ephBytes(x string) []byte {
+func (r *vfcRun) ephBytes(x string) []byte {
 	switch x {
 	case "ei":
 		return r.eiPub[:]
 	case "low":
-		e := vfhLowPoints[r.lowIdx].enc
+		e := vfcLowPoints[r.lowIdx].enc
 		return e[:]
 	case "e1", "e2", "e3":
 		s := r.sess[int(x[1]-'1')]
@@ -463,13 +498,13 @@ func (r *vfhRun) ephBytes(x string) []byte {
 
 // dh is what the intruder can compute for X25519(peer, .) given which ephemeral it planted
 // in the session: with "ei" it uses its private key, with "low" any scalar gives the constant
-func (r *vfhRun) dhWithPlanted(s *vfhSession, other *[32]byte, planted string) *[32]byte {
+func (r *vfcRun) dhWithPlanted(s *vfcSession, other *[32]byte, planted string) *[32]byte {
 	var k [32]byte
 	switch planted {
 	case "ei":
 		box.Precompute(&k, other, r.eiPriv)
 	case "low":
-		e := vfhLowPoints[r.lowIdx].enc
+		e := vfcLowPoints[r.lowIdx].enc
 		box.Precompute(&k, &e, r.eiPriv)
 	default:
 		vfInfra("intruder cannot compute a secret with ephemeral %q", planted)
@@ -477,26 +512,26 @@ func (r *vfhRun) dhWithPlanted(s *vfhSession, other *[32]byte, planted string) *
 	return &k
 }
 
-func vfhArr(b []byte) *[32]byte {
+func vfcArr(b []byte) *[32]byte {
 	var a [32]byte
 	copy(a[:], b)
 	return &a
 }
 
-func vfhHash(a, b *[32]byte) *[32]byte {
+func vfcHash(a, b *[32]byte) *[32]byte {
 	h := sha256.Sum256(append(append([]byte{}, a[:]...), b[:]...))
 	return &h
 }
 
 // planted tells which intruder-computable ephemeral session s currently holds as its peer's
-func (r *vfhRun) planted(s *vfhSession) string {
+func (r *vfcRun) planted(s *vfcSession) string {
 	if s.peerEph == nil {
 		vfInfra("session %d has no peer ephemeral", s.i)
 	}
 	if bytes.Equal(s.peerEph, r.eiPub[:]) {
 		return "ei"
 	}
-	e := vfhLowPoints[r.lowIdx].enc
+	e := vfcLowPoints[r.lowIdx].enc
 	if bytes.Equal(s.peerEph, e[:]) {
 		return "low"
 	}
@@ -504,24 +539,24 @@ func (r *vfhRun) planted(s *vfhSession) string {
 	return ""
 }
 
-func (r *vfhRun) montPub(name string) *[32]byte {
+func (r *vfcRun) montPub(name string) *[32]byte {
 	k, err := cryptoutil.EdwardsToMontgomeryPub(r.keys.pub[name])
-	vfhMust(err, "montgomery pub")
+	vfcMust(err, "montgomery pub")
 	return k
 }
 
-func (r *vfhRun) montPrivE() *[32]byte {
+func (r *vfcRun) montPrivE() *[32]byte {
 	k, err := cryptoutil.EdwardsToMontgomeryPriv(r.keys.priv["E"])
-	vfhMust(err, "montgomery priv")
+	vfcMust(err, "montgomery priv")
 	return k
 }
 
 // key of the step-3 box of/for session s: H(a.b | a.B)
 //   - s responder (owner O): the intruder planted the requester ephemeral, a.B = X(planted, O)
 //   - s requester (target E): a.b via the planted responder ephemeral, a.B = X(E, a)
-func (r *vfhRun) key3(s *vfhSession) *[32]byte {
+func (r *vfcRun) key3(s *vfcSession) *[32]byte {
 	pl := r.planted(s)
-	sh := r.dhWithPlanted(s, vfhArr(s.ownEph), pl)
+	sh := r.dhWithPlanted(s, vfcArr(s.ownEph), pl)
 	var ea *[32]byte
 	if s.cfg.Role == "rsp" {
 		ea = r.dhWithPlanted(s, r.montPub(s.cfg.Owner), pl)
@@ -530,38 +565,38 @@ func (r *vfhRun) key3(s *vfhSession) *[32]byte {
 			vfInfra("intruder cannot open a step-3 box addressed to %s", s.cfg.Target)
 		}
 		var k [32]byte
-		box.Precompute(&k, vfhArr(s.ownEph), r.montPrivE())
+		box.Precompute(&k, vfcArr(s.ownEph), r.montPrivE())
 		ea = &k
 	}
-	return vfhHash(sh, ea)
+	return vfcHash(sh, ea)
 }
 
 // key of the step-4 box of/for session s: H(a.b | A.B), computable when one side is E
-func (r *vfhRun) key4(s *vfhSession, other string) *[32]byte {
+func (r *vfcRun) key4(s *vfcSession, other string) *[32]byte {
 	pl := r.planted(s)
-	sh := r.dhWithPlanted(s, vfhArr(s.ownEph), pl)
+	sh := r.dhWithPlanted(s, vfcArr(s.ownEph), pl)
 	var k [32]byte
 	box.Precompute(&k, r.montPub(other), r.montPrivE())
-	return vfhHash(sh, &k)
+	return vfcHash(sh, &k)
 }
 
-func (r *vfhRun) shared(s *vfhSession) *[32]byte {
-	return r.dhWithPlanted(s, vfhArr(s.ownEph), r.planted(s))
+func (r *vfcRun) shared(s *vfcSession) *[32]byte {
+	return r.dhWithPlanted(s, vfcArr(s.ownEph), r.planted(s))
 }
 
-func vfhBody(frame []byte) []byte {
+func vfcBody(frame []byte) []byte {
 	_, n := binary.Uvarint(frame)
 	return frame[n:]
 }
 
 // proof returns the signature the script asks for: the intruder's own over the shared secret
 // of the attacked session, or one it extracts from a recorded box it can open
-func (r *vfhRun) proof(st vfhStep, signer string, tgt *vfhSession) []byte {
+func (r *vfcRun) proof(st vfcStep, signer string, tgt *vfcSession) []byte {
 	switch st.Pfk {
 	case "own":
 		if signer == "F" && r.ft == "edsmall" {
 			// [S]B = R + [k]A with A the identity: R = [s]B verifies for every message
-			return vfhIdentitySig(r.rnd)
+			return vfcIdentitySig(r.rnd)
 		}
 		// the intruder signs with a key it owns: F's when it claims F, else E's
 		k := r.keys.priv["E"]
@@ -569,37 +604,37 @@ func (r *vfhRun) proof(st vfhStep, signer string, tgt *vfhSession) []byte {
 			k = r.keys.priv["F"]
 		}
 		sig, err := k.Sign(r.shared(tgt)[:])
-		vfhMust(err, "sign")
+		vfcMust(err, "sign")
 		return sig
 	case "x3":
 		j := r.sess[st.Pfj-1]
-		var env BoxEnvelope
-		if r.recorded(vfhStep{Src: st.Pfj}, 1) == nil {
+		var env handshake.BoxEnvelope
+		if r.recorded(vfcStep{Src: st.Pfj}, 1) == nil {
 			return make([]byte, 64)
 		}
-		vfhMust(proto.Unmarshal(vfhBody(j.frames[1]), &env), "recorded step-3 envelope")
+		vfcMust(proto.Unmarshal(vfcBody(j.frames[1]), &env), "recorded step-3 envelope")
 		pt, ok := box.OpenAfterPrecomputation(nil, env.Box, &[24]byte{1}, r.key3(j))
 		if !ok {
 			r.obs = append(r.obs, "x3-unopenable")
 			return make([]byte, 64)
 		}
-		var pl RequesterAuthenticatePayload
-		vfhMust(proto.Unmarshal(pt, &pl), "recorded step-3 payload")
+		var pl handshake.RequesterAuthenticatePayload
+		vfcMust(proto.Unmarshal(pt, &pl), "recorded step-3 payload")
 		return pl.RequesterAccountSig
 	case "x4":
 		j := r.sess[st.Pfj-1]
-		var env BoxEnvelope
-		if r.recorded(vfhStep{Src: st.Pfj}, 1) == nil {
+		var env handshake.BoxEnvelope
+		if r.recorded(vfcStep{Src: st.Pfj}, 1) == nil {
 			return make([]byte, 64)
 		}
-		vfhMust(proto.Unmarshal(vfhBody(j.frames[1]), &env), "recorded step-4 envelope")
+		vfcMust(proto.Unmarshal(vfcBody(j.frames[1]), &env), "recorded step-4 envelope")
 		pt, ok := box.OpenAfterPrecomputation(nil, env.Box, &[24]byte{2}, r.key4(j, j.cfg.Owner))
 		if !ok {
 			r.obs = append(r.obs, "x4-unopenable")
 			return make([]byte, 64)
 		}
-		var pl ResponderAcceptPayload
-		vfhMust(proto.Unmarshal(pt, &pl), "recorded step-4 payload")
+		var pl handshake.ResponderAcceptPayload
+		vfcMust(proto.Unmarshal(pt, &pl), "recorded step-4 payload")
 		return pl.ResponderAccountSig
 	}
 	vfInfra("unknown proof source %q", st.Pfk)
@@ -608,19 +643,19 @@ func (r *vfhRun) proof(st vfhStep, signer string, tgt *vfhSession) []byte {
 
 // ----------------------------------------------------------------------- frame corruptions
 
-type vfhMut struct {
+type vfcMut struct {
 	desc string
 	f    func() []byte
 	eof  bool // close the stream after the bytes
 }
 
 // mutations of one frame (uvarint prefix + body); others = recorded frames of another kind
-func vfhMutations(frame []byte, others [][]byte, last bool) []vfhMut {
-	var out []vfhMut
+func vfcMutations(frame []byte, others [][]byte, last bool) []vfcMut {
+	var out []vfcMut
 	n := len(frame)
 	for i := 0; i < 8*n; i++ {
 		i := i
-		out = append(out, vfhMut{desc: fmt.Sprintf("flip:%d", i), f: func() []byte {
+		out = append(out, vfcMut{desc: fmt.Sprintf("flip:%d", i), f: func() []byte {
 			b := append([]byte(nil), frame...)
 			b[i/8] ^= 1 << (i % 8)
 			return b
@@ -628,9 +663,9 @@ func vfhMutations(frame []byte, others [][]byte, last bool) []vfhMut {
 	}
 	for t := 0; t < n; t++ {
 		t := t
-		out = append(out, vfhMut{desc: fmt.Sprintf("trunc:%d", t), eof: true, f: func() []byte { return append([]byte(nil), frame[:t]...) }})
+		out = append(out, vfcMut{desc: fmt.Sprintf("trunc:%d", t), eof: true, f: func() []byte { return append([]byte(nil), frame[:t]...) }})
 	}
-	body := vfhBody(frame)
+	body := vfcBody(frame)
 	pad := func(total int) []byte { // body + an unknown length-delimited field 15 filling up to total bytes
 		rest := total - len(body)
 		// tag (1 byte) + uvarint length + payload
@@ -643,7 +678,7 @@ func vfhMutations(frame []byte, others [][]byte, last bool) []vfhMut {
 		}
 		return nil
 	}
-	sp := []vfhMut{
+	sp := []vfcMut{
 		{desc: "pad:2048", f: func() []byte { return pad(2048) }},
 		{desc: "pad:2049", f: func() []byte { return pad(2049) }},
 		{desc: "len:2049+zeros", f: func() []byte {
@@ -660,19 +695,19 @@ func vfhMutations(frame []byte, others [][]byte, last bool) []vfhMut {
 	}
 	if last {
 		// bytes after the last frame a role reads are never looked at
-		sp = append(sp, vfhMut{desc: "twice", f: func() []byte { return append(append([]byte(nil), frame...), frame...) }})
+		sp = append(sp, vfcMut{desc: "twice", f: func() []byte { return append(append([]byte(nil), frame...), frame...) }})
 	}
 	out = append(out, sp...)
 	for k, o := range others {
 		o := o
-		out = append(out, vfhMut{desc: fmt.Sprintf("wrongtype:%d", k), f: func() []byte { return append([]byte(nil), o...) }})
+		out = append(out, vfcMut{desc: fmt.Sprintf("wrongtype:%d", k), f: func() []byte { return append([]byte(nil), o...) }})
 	}
 	return out
 }
 
-// vfhSame: does the corrupted byte string still carry, as one well-formed frame of the
+// vfcSame: does the corrupted byte string still carry, as one well-formed frame of the
 // expected kind, the same content as the original?  (the abstract "c" of the model)
-func vfhSame(kind string, orig, mut []byte) bool {
+func vfcSame(kind string, orig, mut []byte) bool {
 	dec := func(b []byte) (string, bool) {
 		l, n := binary.Uvarint(b)
 		if n <= 0 || l > 2048 || len(b) < n+int(l) {
@@ -684,19 +719,19 @@ func vfhSame(kind string, orig, mut []byte) bool {
 		b = b[:n+int(l)]
 		switch kind {
 		case "hello":
-			var m HelloPayload
+			var m handshake.HelloPayload
 			if proto.Unmarshal(b[n:], &m) != nil {
 				return "", false
 			}
-			return vfhCanon(m.EphemeralPubKey), len(m.EphemeralPubKey) == 32
+			return vfcCanon(m.EphemeralPubKey), len(m.EphemeralPubKey) == 32
 		case "auth", "accept":
-			var m BoxEnvelope
+			var m handshake.BoxEnvelope
 			if proto.Unmarshal(b[n:], &m) != nil {
 				return "", false
 			}
 			return hex.EncodeToString(m.Box), true
 		case "ack":
-			var m RequesterAcknowledgePayload
+			var m handshake.RequesterAcknowledgePayload
 			if proto.Unmarshal(b[n:], &m) != nil {
 				return "", false
 			}
@@ -709,7 +744,7 @@ func vfhSame(kind string, orig, mut []byte) bool {
 	return ok1 && ok2 && a == b
 }
 
-func vfhIdentitySig(rnd *rand.Rand) []byte {
+func vfcIdentitySig(rnd *rand.Rand) []byte {
 	// s = 0: R = identity, S = 0
 	sig := make([]byte, 64)
 	sig[0] = 1
@@ -718,26 +753,26 @@ func vfhIdentitySig(rnd *rand.Rand) []byte {
 
 // --------------------------------------------------------------------------------- stepping
 
-func (r *vfhRun) nameOfEph(b []byte) string {
+func (r *vfcRun) nameOfEph(b []byte) string {
 	if b == nil {
 		return "-"
 	}
-	c := vfhCanon(b)
+	c := vfcCanon(b)
 	for _, s := range r.sess {
-		if s.ownEph != nil && vfhCanon(s.ownEph) == c {
+		if s.ownEph != nil && vfcCanon(s.ownEph) == c {
 			return "e" + strconv.Itoa(s.i)
 		}
 	}
-	if vfhCanon(r.eiPub[:]) == c {
+	if vfcCanon(r.eiPub[:]) == c {
 		return "ei"
 	}
-	if vfhDegenerate(b) {
+	if vfcDegenerate(b) {
 		return "low"
 	}
 	return "x"
 }
 
-func (r *vfhRun) nameOfKey(k p2pcrypto.PubKey) string {
+func (r *vfcRun) nameOfKey(k p2pcrypto.PubKey) string {
 	if k == nil {
 		return "-"
 	}
@@ -749,7 +784,7 @@ func (r *vfhRun) nameOfKey(k p2pcrypto.PubKey) string {
 	return "?"
 }
 
-func (r *vfhRun) outcome(s *vfhSession, wrote int) (string, string) {
+func (r *vfcRun) outcome(s *vfcSession, wrote int) (string, string) {
 	c := s.conn
 	c.mu.Lock()
 	defer c.mu.Unlock()
@@ -767,7 +802,7 @@ func (r *vfhRun) outcome(s *vfhSession, wrote int) (string, string) {
 }
 
 // otherKind lists recorded frames that are not of the kind expected by the receiver now
-func (r *vfhRun) otherKind(kind string) [][]byte {
+func (r *vfcRun) otherKind(kind string) [][]byte {
 	var out [][]byte
 	for _, s := range r.sess {
 		for k, f := range s.frames {
@@ -792,7 +827,7 @@ func (r *vfhRun) otherKind(kind string) [][]byte {
 // get as far as the model expects (the run is then outside the full specification: a "low"
 // encoding that is not degenerate for this X25519 implementation, or an implementation that
 // rejects what the model's Impl value accepts) there is nothing to replay: nil.
-func (r *vfhRun) recorded(st vfhStep, k int) []byte {
+func (r *vfcRun) recorded(st vfcStep, k int) []byte {
 	fr := r.sess[st.Src-1].frames
 	if k >= len(fr) {
 		r.obs = append(r.obs, "nothing-to-replay")
@@ -801,7 +836,7 @@ func (r *vfhRun) recorded(st vfhStep, k int) []byte {
 	return fr[k]
 }
 
-func (r *vfhRun) step(st vfhStep) map[string]any {
+func (r *vfcRun) step(st vfcStep) map[string]any {
 	s := r.sess[st.S-1]
 	// skip: the step could not be executed as the model describes it (see recorded)
 	ev := map[string]any{"ev": st.Act, "s": st.S, "x": st.X, "src": st.Src, "acct": st.Acct, "pfk": st.Pfk, "pfj": st.Pfj, "c": st.C, "skip": false}
@@ -838,10 +873,15 @@ func (r *vfhRun) step(st vfhStep) map[string]any {
 			frame = r.recorded(st, 0)
 			prov = fmt.Sprintf("%d.1", st.Src)
 		} else {
-			frame = vfhFrame(&HelloPayload{EphemeralPubKey: eb})
+			frame = vfcFrame(&handshake.HelloPayload{EphemeralPubKey: eb})
 		}
 		s.peerEph = eb
 	case "auth":
+		if st.Src > 0 {
+			s.claimed = r.sess[st.Src-1].cfg.Owner
+		} else {
+			s.claimed = st.Acct
+		}
 		if st.Src > 0 {
 			frame = r.recorded(st, 1)
 			prov = fmt.Sprintf("%d.2", st.Src)
@@ -851,19 +891,19 @@ func (r *vfhRun) step(st vfhStep) map[string]any {
 				vfInfra("no key for account %q", st.Acct)
 			}
 			id, err := p2pcrypto.MarshalPublicKey(pk)
-			vfhMust(err, "marshal account key")
-			pl, err := proto.Marshal(&RequesterAuthenticatePayload{RequesterAccountId: id, RequesterAccountSig: r.proof(st, st.Acct, s)})
-			vfhMust(err, "marshal payload")
-			frame = vfhFrame(&BoxEnvelope{Box: box.SealAfterPrecomputation(nil, pl, &[24]byte{1}, r.key3(s))})
+			vfcMust(err, "marshal account key")
+			pl, err := proto.Marshal(&handshake.RequesterAuthenticatePayload{RequesterAccountId: id, RequesterAccountSig: r.proof(st, st.Acct, s)})
+			vfcMust(err, "marshal payload")
+			frame = vfcFrame(&handshake.BoxEnvelope{Box: box.SealAfterPrecomputation(nil, pl, &[24]byte{1}, r.key3(s))})
 		}
 	case "accept":
 		if st.Src > 0 {
 			frame = r.recorded(st, 1)
 			prov = fmt.Sprintf("%d.2", st.Src)
 		} else {
-			pl, err := proto.Marshal(&ResponderAcceptPayload{ResponderAccountSig: r.proof(st, "E", s)})
-			vfhMust(err, "marshal payload")
-			frame = vfhFrame(&BoxEnvelope{Box: box.SealAfterPrecomputation(nil, pl, &[24]byte{2}, r.key4(s, s.cfg.Owner))})
+			pl, err := proto.Marshal(&handshake.ResponderAcceptPayload{ResponderAccountSig: r.proof(st, "E", s)})
+			vfcMust(err, "marshal payload")
+			frame = vfcFrame(&handshake.BoxEnvelope{Box: box.SealAfterPrecomputation(nil, pl, &[24]byte{2}, r.key4(s, s.cfg.Owner))})
 		}
 	case "ack":
 		switch {
@@ -871,11 +911,33 @@ func (r *vfhRun) step(st vfhStep) map[string]any {
 			frame = r.recorded(st, 2)
 			prov = fmt.Sprintf("%d.3", st.Src)
 		case st.X == "t":
-			frame, prov = vfhFrame(&RequesterAcknowledgePayload{Success: true}), "I:ack+"
+			frame, prov = vfcFrame(&handshake.RequesterAcknowledgePayload{Success: true}), "I:ack+"
 		case st.X == "f":
-			frame, prov = vfhFrame(&RequesterAcknowledgePayload{Success: false}), "I:ack-"
+			frame, prov = vfcFrame(&handshake.RequesterAcknowledgePayload{Success: false}), "I:ack-"
 		default:
 			frame, eof, prov = nil, true, "eof"
+		}
+	case "contact":
+		// the announcement that follows the handshake on the same stream
+		sc := &protocoltypes.ShareableContact{PublicRendezvousSeed: make([]byte, protocoltypes.RendezvousSeedLength), Metadata: []byte("vf")}
+		r.rnd.Read(sc.PublicRendezvousSeed)
+		prov = "I:contact:" + st.X
+		switch st.X {
+		case "eof":
+			frame, eof = nil, true
+		case "junk":
+			sc.Pk = make([]byte, 31)
+			r.rnd.Read(sc.Pk)
+			frame = vfcFrame(sc)
+		default:
+			pk := r.keys.pub[st.X]
+			if pk == nil {
+				vfInfra("no key for contact %q", st.X)
+			}
+			raw, err := pk.Raw()
+			vfcMust(err, "raw key")
+			sc.Pk = raw
+			frame = vfcFrame(sc)
 		}
 	default:
 		vfInfra("unknown action %q", st.Act)
@@ -884,7 +946,7 @@ func (r *vfhRun) step(st vfhStep) map[string]any {
 		eof, prov = true, "missing"
 	}
 	if st.C && frame != nil {
-		muts := vfhMutations(frame, r.otherKind(st.Act), st.Act == "accept" || st.Act == "ack")
+		muts := vfcMutations(frame, r.otherKind(st.Act), st.Act == "accept" || st.Act == "ack")
 		r.nmut = len(muts)
 		if r.mutIdx < 0 || r.mutIdx >= len(muts) {
 			vfInfra("mutation index %d out of range %d", r.mutIdx, len(muts))
@@ -892,13 +954,13 @@ func (r *vfhRun) step(st vfhStep) map[string]any {
 		m := muts[r.mutIdx]
 		mb := m.f()
 		r.mutDesc = m.desc
-		same := vfhSame(st.Act, frame, mb)
+		same := vfcSame(st.Act, frame, mb)
 		ev["c"] = !same
 		ev["mut"] = m.desc
 		prov += "~"
 		if st.Act == "hello" {
 			// what the code will read as ephemeral, if the bytes still are one well-formed hello
-			var h HelloPayload
+			var h handshake.HelloPayload
 			s.peerEph = nil
 			if l, n := binary.Uvarint(mb); n > 0 && l <= 2048 && int(l) <= len(mb)-n && proto.Unmarshal(mb[n:n+int(l)], &h) == nil && len(h.EphemeralPubKey) == 32 {
 				s.peerEph = h.EphemeralPubKey
@@ -937,7 +999,7 @@ func (r *vfhRun) step(st vfhStep) map[string]any {
 	return ev
 }
 
-func (r *vfhRun) finish() map[string]any {
+func (r *vfcRun) finish() map[string]any {
 	var recs []map[string]any
 	for _, s := range r.sess {
 		rec := map[string]any{"i": s.i, "role": s.cfg.Role, "owner": s.cfg.Owner, "target": s.cfg.Target,
@@ -948,8 +1010,22 @@ func (r *vfhRun) finish() map[string]any {
 			// script is sent a positive one (only possible when model and code disagree)
 			if !s.closed && s.cfg.Role == "rsp" && len(s.frames) >= 2 && len(s.in) == 2 {
 				s.in = append(s.in, "I:ack+!")
-				s.conn.deliver(vfhFrame(&RequesterAcknowledgePayload{Success: true}))
+				s.conn.deliver(vfcFrame(&handshake.RequesterAcknowledgePayload{Success: true}))
 				s.conn.settle()
+			}
+			// ... and a handleIncomingRequest that got through the handshake without the script
+			// announcing a contact is announced the key that was claimed in the step-3 box
+			if !s.closed && s.cfg.Role == "rsp" && len(s.frames) >= 2 && len(s.in) == 3 && s.claimed != "" {
+				s.conn.mu.Lock()
+				live := !s.conn.done
+				s.conn.mu.Unlock()
+				if pk := r.keys.pub[s.claimed]; live && pk != nil {
+					raw, _ := pk.Raw()
+					sc := &protocoltypes.ShareableContact{Pk: raw, PublicRendezvousSeed: make([]byte, protocoltypes.RendezvousSeedLength)}
+					s.in = append(s.in, "I:contact:"+s.claimed+"!")
+					s.conn.deliver(vfcFrame(sc))
+					s.conn.settle()
+				}
 			}
 			if !s.closed {
 				s.conn.closeIn()
@@ -976,7 +1052,7 @@ func (r *vfhRun) finish() map[string]any {
 			rec["key"] = key
 			if s.ownEph != nil {
 				rec["oe"] = "e" + strconv.Itoa(s.i)
-				rec["oeh"] = vfhCanon(s.ownEph)
+				rec["oeh"] = vfcCanon(s.ownEph)
 			}
 			rec["pe"] = r.nameOfEph(s.peerEph)
 			rec["s3"] = s.cfg.Role == "req" && len(s.frames) >= 2
@@ -988,18 +1064,29 @@ func (r *vfhRun) finish() map[string]any {
 		}
 		recs = append(recs, rec)
 	}
-	return map[string]any{"ev": "fin", "sess": recs}
+	// for which keys of this run does the account group now hold an incoming contact request?
+	app := []string{}
+	ms := vfcW.svc.accountGroupCtx.metadataStore
+	for _, n := range []string{"A", "E", "W"} {
+		if ms.getContactStatus(r.keys.pub[n]) == protocoltypes.ContactState_ContactStateReceived {
+			app = append(app, n)
+		}
+	}
+	vfcAppMu.Lock()
+	vfcAppended += len(app)
+	vfcAppMu.Unlock()
+	return map[string]any{"ev": "fin", "sess": recs, "app": app}
 }
 
-type vfhJob struct {
-	sc     *vfhScript
+type vfcJob struct {
+	sc     *vfcScript
 	lowIdx int
 	ft     string
 	mutIdx int
 	steps  bool
 }
 
-func vfhUses(sc *vfhScript) (low, f, junk bool) {
+func vfcUses(sc *vfcScript) (low, f, junk bool) {
 	for _, st := range sc.Steps {
 		if st.X == "low" {
 			low = true
@@ -1014,9 +1101,9 @@ func vfhUses(sc *vfhScript) (low, f, junk bool) {
 	return
 }
 
-func vfhExec(j vfhJob) ([]map[string]any, int) {
+func vfcExec(j vfcJob) ([]map[string]any, int) {
 	salt := int64(j.sc.ID)*1000003 + int64(j.lowIdx)*7919 + int64(j.mutIdx+1)*104729 + int64(len(j.ft))
-	r := &vfhRun{sc: j.sc, lowIdx: j.lowIdx, ft: j.ft, mutIdx: j.mutIdx, rnd: vfRand(salt)}
+	r := &vfcRun{sc: j.sc, lowIdx: j.lowIdx, ft: j.ft, mutIdx: j.mutIdx, rnd: vfRand(salt)}
 	id := fmt.Sprintf("%d/%d/%s/%d", j.sc.ID, j.lowIdx, j.ft, j.mutIdx)
 	descr := []string{}
 	for _, c := range j.sc.Cfg.Sess {
@@ -1038,24 +1125,35 @@ func vfhExec(j vfhJob) ([]map[string]any, int) {
 		}
 	}
 	fin := r.finish()
-	low, f, _ := vfhUses(j.sc)
+	low, f, _ := vfcUses(j.sc)
 	// does the model describe this concretisation?  (a "low" encoding that is not degenerate
 	// in this X25519 implementation, or the small-order identity key, are executed and judged
 	// by the monitor but are outside the full specification)
-	model := (!low || vfhLowPoints[j.lowIdx].zero) && !(f && j.ft == "edsmall")
+	model := (!low || vfcLowPoints[j.lowIdx].zero) && !(f && j.ft == "edsmall")
 	reset := map[string]any{"ev": "reset", "id": id, "sid": j.sc.ID, "d": descr, "model": model,
-		"low": vfhLowPoints[j.lowIdx].name, "lowzero": vfhLowPoints[j.lowIdx].zero, "ft": j.ft, "mut": r.mutDesc, "obs": r.obs}
+		"low": vfcLowPoints[j.lowIdx].name, "lowzero": vfcLowPoints[j.lowIdx].zero, "ft": j.ft, "mut": r.mutDesc, "obs": r.obs}
 	out := append([]map[string]any{reset}, evs...)
 	out = append(out, fin)
 	return out, r.nmut
 }
 
-func TestVerifHandshakeReplay(t *testing.T) {
-	scripts := vfhLoadScripts(t)
+func TestVerifContactReplay(t *testing.T) {
+	scripts := vfcLoadScripts(t)
 	tr := vfOpenTrace(t)
 	defer tr.Close()
+	ctx, cancel := context.WithCancel(context.Background())
+	defer cancel()
+	mn := mocknet.New()
+	defer mn.Close()
+	tp, cleanup := NewTestingProtocol(ctx, t, &TestingOpts{Mocknet: mn, DiscoveryServer: tinder.NewMockDriverServer()}, nil)
+	defer cleanup()
+	svc := tp.Service.(*service)
+	if svc.contactRequestsManager == nil {
+		vfInfra("service has no contact request manager")
+	}
+	vfcW = &vfcWorld{svc: svc, mgr: svc.contactRequestsManager, ctx: ctx}
 	workers := vfEnvInt("VERIF_WORKERS", 8)
-	ch := make(chan vfhJob, 256)
+	ch := make(chan vfcJob, 256)
 	var wg sync.WaitGroup
 	var mu sync.Mutex
 	runs := 0
@@ -1070,14 +1168,14 @@ func TestVerifHandshakeReplay(t *testing.T) {
 		go func() {
 			defer wg.Done()
 			for j := range ch {
-				evs, _ := vfhExec(j)
+				evs, _ := vfcExec(j)
 				emit(evs)
 			}
 		}()
 	}
 	for si := range scripts {
 		sc := &scripts[si]
-		low, f, junk := vfhUses(sc)
+		low, f, junk := vfcUses(sc)
 		lows := []int{0}
 		if low && len(sc.Cfg.Low) > 0 {
 			lows = sc.Cfg.Low
@@ -1092,10 +1190,10 @@ func TestVerifHandshakeReplay(t *testing.T) {
 		// step events are recorded for the first concretisation the model describes (all of
 		// them with stepsall)
 		stepsLeft := sc.Cfg.Steps
-		inModel := func(li int, ft string) bool { return (!low || vfhLowPoints[li].zero) && ft != "edsmall" }
+		inModel := func(li int, ft string) bool { return (!low || vfcLowPoints[li].zero) && ft != "edsmall" }
 		combo := 0
 		for _, li := range lows {
-			if li < 0 || li >= len(vfhLowPoints) {
+			if li < 0 || li >= len(vfcLowPoints) {
 				vfInfra("bad low index %d", li)
 			}
 			for _, ft := range fts {
@@ -1105,11 +1203,11 @@ func TestVerifHandshakeReplay(t *testing.T) {
 				}
 				combo++
 				if !junk {
-					ch <- vfhJob{sc: sc, lowIdx: li, ft: ft, mutIdx: -1, steps: want}
+					ch <- vfcJob{sc: sc, lowIdx: li, ft: ft, mutIdx: -1, steps: want}
 					continue
 				}
 				// learn the number of corruptions of the frame from a first run
-				evs0, n := vfhExec(vfhJob{sc: sc, lowIdx: li, ft: ft, mutIdx: 0, steps: want})
+				evs0, n := vfcExec(vfcJob{sc: sc, lowIdx: li, ft: ft, mutIdx: 0, steps: want})
 				if n == 0 {
 					emit(evs0) // the corrupted delivery was never reached with a frame
 					continue
@@ -1147,15 +1245,30 @@ func TestVerifHandshakeReplay(t *testing.T) {
 						emit(evs0)
 						continue
 					}
-					ch <- vfhJob{sc: sc, lowIdx: li, ft: ft, mutIdx: k, steps: want && (sc.Cfg.StepsAll || q == 0)}
+					ch <- vfcJob{sc: sc, lowIdx: li, ft: ft, mutIdx: k, steps: want && (sc.Cfg.StepsAll || q == 0)}
 				}
 			}
 		}
 	}
 	close(ch)
 	wg.Wait()
+	// cross-check: the AccountContactRequestIncomingReceived events in the log of the account group
+	evch, err := svc.accountGroupCtx.metadataStore.ListEvents(ctx, nil, nil, false)
+	vfcMust(err, "list events")
+	nIncoming := 0
+	for e := range evch {
+		if e.Metadata.EventType == protocoltypes.EventType_EventTypeAccountContactRequestIncomingReceived {
+			nIncoming++
+		}
+	}
+	vfcAppMu.Lock()
+	if nIncoming != vfcAppended {
+		vfInfra("log holds %d incoming-request events, runs observed %d", nIncoming, vfcAppended)
+	}
+	vfcAppMu.Unlock()
+	t.Logf("VERIF-INCOMING events=%d", nIncoming)
 	names := []string{}
-	for _, l := range vfhLowPoints {
+	for _, l := range vfcLowPoints {
 		names = append(names, fmt.Sprintf("%s=%s zero=%v", l.name, hex.EncodeToString(l.enc[:]), l.zero))
 	}
 	t.Logf("VERIF-LOWPOINTS %s", strings.Join(names, "; "))
